@@ -355,7 +355,14 @@ func Generate(r *rng.R, tier string, n int, emit func(*common.Case)) {
 		sub := cr.U64()
 		cr = rng.New(sub)
 		var in Input
-		tbl := genTable(cr)
+		var tbl []KLine
+		var ask []string
+		subtree := i%6 == 3 // one file system seen through mounts of related subtrees (r5_subtree.go)
+		if subtree {
+			tbl, ask = genSubtreeTable(cr)
+		} else {
+			tbl = genTable(cr)
+		}
 		lines := make([]string, len(tbl))
 		for j, k := range tbl {
 			lines[j] = Render(k)
@@ -368,7 +375,11 @@ func Generate(r *rng.R, tier string, n int, emit func(*common.Case)) {
 			in.HasTbl = true
 		}
 		in.Lines = common.Bs(lines)
-		in.Queries = common.Bs(genQueries(cr, lines, tbl))
+		if subtree {
+			in.Queries = common.Bs(genSubtreeQueries(cr, lines, tbl, ask))
+		} else {
+			in.Queries = common.Bs(genQueries(cr, lines, tbl))
+		}
 		c := Run(in)
 		c.Sub = sub
 		emit(c)
@@ -512,6 +523,13 @@ func Run(in Input) (c *common.Case) {
 	if strings.Contains(text2, "shared:") || strings.Contains(text2, "master:") {
 		classes = append(classes, "optional-fields")
 		c.Nontrivial = true
+	}
+	if in.HasTbl {
+		cl := subtreeClasses(fromJ(in.Table))
+		if len(cl) > 0 {
+			c.Nontrivial = true
+		}
+		classes = append(classes, cl...)
 	}
 	classes = append(classes, fmt.Sprintf("mounts=%d", len(lines)))
 	c.Classes = classes
